@@ -46,7 +46,7 @@ def cases(tier):
             cs.append(C("u/%s/(2,2)F" % f, "out = mg.%s(x)" % f, [("x", (2, 2), "F")], convention=conv))
             cs.append(C("u/%s/empty" % f, "out = mg.%s(x)" % f, [("x", (0,))], convention=conv))
             cs.append(C("u/%s/np-ufunc" % f, "out = np.%s(x)" % ("abs" if f == "abs" else f), [("x", (2,))],
-                        convention=conv) if hasattr(__import__("numpy"), f) else
+                        convention=conv) if isinstance(getattr(__import__("numpy"), f, None), __import__("numpy").ufunc) else
                       C("u/%s/(1,2)" % f, "out = mg.%s(x)" % f, [("x", (1, 2))], convention=conv))
     cs.append(C("u/abs/nan_to_num=False", "out = mg.abs(x, nan_to_num=False)", [("x", (2,))]))
     # ------------------------------------------------------------------ binary ufuncs
@@ -236,8 +236,6 @@ def cases(tier):
     if T:
         cs.append(C("n/gru/T2/s0", "out = gru(X, Uz, Wz, bz, Ur, Wr, br, Uh, Wh, bh, s0=s)",
                     [("X", (2, 1, 1))] + gru_leaves[1:], carrs=[["s", [1, 1]]], heavy=True))
-        cs.append(C("n/gru/T2/bp_lim1", "out = gru(X, Uz, Wz, bz, Ur, Wr, br, Uh, Wh, bh, bp_lim=1)",
-                    [("X", (3, 1, 1))] + gru_leaves[1:], heavy=True, expect_truncated=True))
     # ------------------------------------------------------------------ losses
     cs.append(C("o/softmax_crossentropy", "out = softmax_crossentropy(x, y)", [("x", (2, 2))], setup="y = np.array([1, 0])"))
     cs.append(C("o/softmax_crossentropy/(1,3)", "out = softmax_crossentropy(x, y)", [("x", (1, 3))], setup="y = np.array([2])"))
